@@ -664,6 +664,23 @@ pub unsafe extern "C" fn munmap(a: *mut libc::c_void, l: usize) -> i32 {
     r
 }
 
+#[no_mangle]
+pub unsafe extern "C" fn fstat(fd: i32, st: *mut libc::stat) -> i32 {
+    let r = real!("fstat", unsafe extern "C" fn(i32, *mut libc::stat) -> i32)(fd, st);
+    let e = errno();
+    rec(|| Ev::Fstat { fd });
+    set_errno(e);
+    r
+}
+#[no_mangle]
+pub unsafe extern "C" fn fstat64(fd: i32, st: *mut libc::stat) -> i32 {
+    let r = real!("fstat64", unsafe extern "C" fn(i32, *mut libc::stat) -> i32)(fd, st);
+    let e = errno();
+    rec(|| Ev::Fstat { fd });
+    set_errno(e);
+    r
+}
+
 /// descriptors currently open in this process (from /proc/self/fd), excluding the directory handle itself
 pub fn proc_fds() -> BTreeSet<i32> {
     let mut s = BTreeSet::new();
